@@ -13,14 +13,12 @@ use serde_json::{json, Value as J};
 pub fn actor_num(a: &ActorId) -> i64 {
     let b = a.to_bytes();
     if b.len() == 1 {
-        return b[0] as i64;
+        // two regimes: bytes below 0x20 (isolation actors 13 b2 23 09.. sort AFTER them) map to
+        // themselves; bytes from 0x20 on (isolation actors sort BEFORE them) map to 100000 + byte
+        return if b[0] >= 0x20 { 100_000 + b[0] as i64 } else { b[0] as i64 };
     }
-    if b.len() >= 6 && b[0..4] == [0x13, 0xb2, 0x23, 0x09] && b[4] < 128 {
-        let inner = ActorId::from(&b[5..]);
-        let base = actor_num(&inner);
-        if base >= 0 && base < 256 {
-            return 256 * (b[4] as i64) + base;
-        }
+    if b.len() == 6 && b[0..4] == [0x13, 0xb2, 0x23, 0x09] && b[4] < 128 {
+        return 256 * (b[4] as i64) + b[5] as i64;
     }
     // unknown actor naming: give a stable but large number (order not guaranteed)
     let mut n: i64 = 100_000;
